@@ -95,7 +95,8 @@ def run_case(rec, case):
     route = case.get("route") or ("sub" if x < 0.008 else "build.py" if x < 0.016 else "lib" if x < 0.5 else
                                   "cmd" if x < 0.75 else "cli")
     wd = rec.tmpdir()
-    src, st, pt = drive.fresh(wd, ".suit"), drive.fresh(wd, ".hex"), drive.fresh(wd, ".hex")
+    odd = r.choice(["", "", "", " with space", "_ünï", "_日本"])     # file names are free text, too
+    src, st, pt = drive.fresh(wd, odd + ".suit"), drive.fresh(wd, odd + ".hex"), drive.fresh(wd, odd + ".hex")
     with open(src, "wb") as fh:
         fh.write(data)
     full = dict(case, size=size, dfu=dfu, uci=uci, caches=caches, route=route)
